@@ -167,4 +167,60 @@ theorem charged_emitC {sd : Stream → Nat → Nat → Stream × List String × 
           simp only [e1, Bool.false_eq_true, if_false, if_neg hxk]
           exact ⟨trivial, by simp, by simp⟩
 
+theorem PopRel.other {s t : Streams} {m : Nat} {o : Option Streams.OutFrame} (h : WFr s t)
+    (ho : ∀ len e fr, o ≠ some (.data len e fr)) : PopRel s m (t, o) := by
+  unfold PopRel
+  split
+  · rename_i heq; exact absurd heq (ho _ _ _)
+  · exact h
+
+theorem PopRel.data {s s1 t : Streams} {m len : Nat} {e : Bool} {fr : DataFrame} (h : WFr s s1) (hs : SafeInv s1)
+    (hc : DataCut s1 fr.key len m) (hch : Charged s1 t fr.key len) : PopRel s m (t, some (.data len e fr)) :=
+  ⟨s1, h, hs, hc, hch⟩
+
+theorem popRel_emit {sd : Stream → Nat → Nat → Stream × List String × Bool} (hsd : SdOk sd) {s s' : Streams}
+    (h : SafeInv s) {id : Nat} (heq : s.qPop .pendingSend = (s', some id)) (sz maxLen : Nat) (rest : List SFrame)
+    (hc : ¬(decide (usizeAsU32 (min (min sz maxLen) (s'.stream id).sendFlow.available.asSize) > 0) &&
+            decide (usizeAsU32 (min (min sz maxLen) (s'.stream id).sendFlow.available.asSize) >
+              (s'.stream id).sendFlow.windowSz)) = true)
+    (Y : Streams)
+    (hY : Fr (emitC sd s' id (usizeAsU32 (min (min sz maxLen) (s'.stream id).sendFlow.available.asSize)) rest) Y)
+    (e : Bool) (fr : DataFrame) (hfr : fr.key = id) :
+    PopRel s maxLen (Y, some (.data (usizeAsU32 (min (min sz maxLen) (s'.stream id).sendFlow.available.asSize)) e fr)) := by
+  simp only [Bool.and_eq_true, decide_eq_true_eq, not_and, Nat.not_lt] at hc
+  have hs1 : SafeInv s' := SafeInvG.of_fst_eq heq (h.fr ((Fr.refl _).qPop _))
+  have hw : WFr s s' := WFr.of_fst_eq heq ((Fr.refl _).qPop _).wfr
+  have hle1 : usizeAsU32 (min (min sz maxLen) (s'.stream id).sendFlow.available.asSize) ≤
+      (s'.stream id).sendFlow.available.asSize := Nat.le_trans (usizeAsU32_le _) (Nat.min_le_right _ _)
+  have hle2 : usizeAsU32 (min (min sz maxLen) (s'.stream id).sendFlow.available.asSize) ≤ maxLen :=
+    Nat.le_trans (usizeAsU32_le _) (Nat.le_trans (Nat.min_le_left _ _) (Nat.min_le_right _ _))
+  generalize usizeAsU32 (min (min sz maxLen) (s'.stream id).sendFlow.available.asSize) = len at *
+  have hlw : len = 0 ∨ len ≤ (s'.stream id).sendFlow.windowSz := by omega
+  have hch := charged_emitC hsd hs1 id len rest hle1 hlw
+  refine PopRel.data hw hs1 ?_ ?_
+  · rw [hfr]; exact ⟨hle2, hle1, hlw⟩
+  · rw [hfr]; exact hch.1.fr hch.2 hY
+
+set_option maxHeartbeats 800000 in
+theorem popFrameC_spec {sd : Stream → Nat → Nat → Stream × List String × Bool} (hsd : SdOk sd) (fuel : Nat) :
+    ∀ {s : Streams}, SafeInv s → ∀ maxLen, PopRel s maxLen (popFrameC sd fuel s maxLen) := by
+  induction fuel with
+  | zero => intro s h m; rw [popFrameC_zero]; exact PopRel.other (WFr.refl _) (by intros; simp)
+  | succ n ih =>
+    intro s h maxLen
+    rw [popFrameC_succ']
+    dsimp only
+    repeat' split
+    all_goals first
+      | (guard_last_arg ConnFlowP.popFrameC
+         refine PopRel.wfr ?_ (ih ?_ _)
+         · wfr_auto
+         · safe_auto)
+      | exact popRel_emit hsd h ‹_› _ _ _ ‹_› _ (by fr_auto) _ _ rfl
+      | exact PopRel.other (by wfr_auto) (by intros; simp)
+
+theorem popFrame_spec {s : Streams} (h : SafeInv s) (fuel maxLen : Nat) :
+    PopRel s maxLen (Streams.popFrame fuel s maxLen) := by
+  rw [popFrameC.eq]; exact popFrameC_spec sdOk_sendData fuel h maxLen
+
 end H2V.Lemmas.ConnFlowP
